@@ -29,7 +29,7 @@ def run(ctx):
     # (1) reducedness: T1 over the whole crate
     ctx.clauses.append("all returned words are freely reduced (T1, shared with C10)")
     n = t1_write_through(ctx, "T1-write-through", c10.FW, "w", c10.SAN)
-    ctx.floor("T1 write sites of FreeWord.w", n, 3)
+    ctx.floor("T1 write sites of FreeWord.w", n, 2)
     tw = ctx.body("fundamental_group::trace_word")
     ret_ty = tw.f["sig"]["output"]
     ctx.require(ret_ty == c10.FW, "T8-word-type", tw.name, "return-type", "traced words are FreeWord values", "trace_word no longer returns a FreeWord: " + ret_ty)
@@ -62,7 +62,7 @@ def run(ctx):
             continue
         rel = rt[0]
         rel_word, rel_deg = rel[2][0], rel[2][1]
-        nonempty = any(a[0] == "rel" and a[1] == "Lt" and norm(a[2], g) == ("int", 0) and norm(a[3], g) == ("call", "fpgroups::free_words::FreeWord::len", (rel,)) for a in b.facts_at(bi))
+        nonempty = holds(b.facts_at(bi), ("rel", "Lt", ("int", 0), ("call", "fpgroups::free_words::FreeWord::len", (rel,))), g)
         ctx.require(nonempty, "T3-relator-nonempty", FG, "relators.insert:guard", "dominated by rel.len() > 0 on the inserted relator", "an empty relator can be inserted (no dominating len() > 0 on the same word)", b.span_of(bi))
         twc = rel_word if rel_word[0] == "call" and rel_word[1].endswith("trace_word") else None
         ctx.require(twc is not None, "T3-relator-shape", FG, "relators.insert:word", "the base word is trace_word(..)", "relator base word is not a traced word: " + show(rel_word, 1)[:80], b.span_of(bi))
@@ -99,7 +99,7 @@ def run(ctx):
     ctx.clauses.append("cone list = branched 2-orbits with their branching number (T3)")
     for bi, t, v in cone_ins:
         w, deg = v[2]
-        okg = any(a[0] == "rel" and a[1] == "Lt" and norm(a[2], g) == ("int", 1) and norm(a[3], g) == deg for a in b.facts_at(bi))
+        okg = holds(b.facts_at(bi), ("rel", "Lt", ("int", 1), deg), g)
         ctx.require(okg, "T3-cone-guard", FG, "cones.insert:guard", "dominated by degree > 1 on the inserted degree",
                     "a cone is recorded without the test degree > 1 on the recorded degree (unbranched orbits would be listed)", b.span_of(bi))
         ctx.require(rel_deg is not None and deg == rel_deg, "T3-cone-degree", FG, "cones.insert:degree", "the recorded order is the exponent v(i, j, d) used for the relator of the same orbit",
